@@ -33,6 +33,10 @@ type InterfaceType struct {
 	TypePackage string
 	IsPointer   bool
 	IsVariadic  bool
+
+	// goType is the type this description was made from (nil in hand-built models).
+	// When both sides of a comparison have one, the types are compared the way Go compares them.
+	goType types.Type
 }
 
 // LoadInterfaces loads specified interfaces from the analysis pass
@@ -170,6 +174,7 @@ func convertTypesToInterfaceType(t types.Type) InterfaceType {
 	if ptr, ok := t.(*types.Pointer); ok {
 		inner := convertTypesToInterfaceType(ptr.Elem())
 		inner.IsPointer = true
+		inner.goType = t
 		return inner
 	}
 
@@ -187,6 +192,7 @@ func convertTypesToInterfaceType(t types.Type) InterfaceType {
 			TypePackage: pkgPath,
 			IsPointer:   false,
 			IsVariadic:  false,
+			goType:      t,
 		}
 	}
 
@@ -197,6 +203,7 @@ func convertTypesToInterfaceType(t types.Type) InterfaceType {
 			TypePackage: "",
 			IsPointer:   false,
 			IsVariadic:  false,
+			goType:      t,
 		}
 	}
 
@@ -205,5 +212,6 @@ func convertTypesToInterfaceType(t types.Type) InterfaceType {
 		TypeName:   t.String(),
 		IsPointer:  false,
 		IsVariadic: false,
+		goType:     t,
 	}
 }
